@@ -66,6 +66,7 @@ def main():
     ap.add_argument("--checks", default="")
     ap.add_argument("--tier", default="quick")
     ap.add_argument("--skip-confirm", action="store_true")
+    ap.add_argument("--no-write", action="store_true", help="do not rewrite verify.json (sensitivity sweeps)")
     a = ap.parse_args()
     seed = os.path.abspath(a.seed)
     work = tempfile.mkdtemp(prefix="xrlv.seed.", dir="/var/tmp")
@@ -119,8 +120,9 @@ def main():
         res["checks"] = det
     finally:
         shutil.rmtree(work, ignore_errors=True)
-    with open(os.path.join(seed, "verify.json"), "w") as f:
-        json.dump(res, f, indent=1)
+    if not a.no_write:
+        with open(os.path.join(seed, "verify.json"), "w") as f:
+            json.dump(res, f, indent=1)
     print(json.dumps(res, indent=1))
     return 0
 
